@@ -117,7 +117,7 @@ func (e *specEnv) lookup(name string) (SVal, bool) {
 			}
 			if len(cands) == 0 {
 				// the local may have been renamed since the contract was written
-				if nn := e.r.eng.renamedLocal(fr.fn, want); nn != "" {
+				for _, nn := range e.r.eng.renamedLocal(fr.fn, want) {
 					for a := range e.state().cells {
 						if a.Comment == nn && a.Parent() == fr.fn {
 							cands = append(cands, a)
